@@ -906,6 +906,15 @@ func (s *State) evalExpressions(exps []ast.Node) ([]object.Object, *object.Error
 			oerr := evaluated.(object.Error)
 			return nil, &oerr
 		}
+		if rv, ok := evaluated.(object.ReturnValue); ok {
+			// a return/break/continue inside an element or argument (`[if c {return 1}]`): same as for operands (Eval),
+			// the value of a return, an error for the others - not a control object stored as a value (Cmp panics on it).
+			if rv.ControlType != token.RETURN {
+				oerr := s.Errorf("unexpected control type %v outside of for loops", rv.ControlType)
+				return nil, &oerr
+			}
+			evaluated = rv.Value
+		}
 		result = append(result, object.CopyRegister(evaluated))
 	}
 	return result, nil
